@@ -89,12 +89,21 @@ class Encoder:
         src = Path(mod.__file__).read_text()
         tree = ast.parse(src)
         node = next(n for n in tree.body if isinstance(n, ast.FunctionDef) and n.name == fn.__name__)
-        params = [a.arg for a in node.args.args]
+        a = node.args
+        params = [x.arg for x in [*a.posonlyargs, *a.args]]
+        other = bool(a.vararg or a.kwonlyargs or a.kwarg)
+        if a.posonlyargs:
+            self.features.add("sig_posonly")
+        if other:
+            self.features.add("sig_other_params")
         self.prog[q] = {}  # placeholder (recursion guard)
         glob: dict[str, list] = {}
-        local = set(params) | assigned_names(node.body)
+        local = (set(params) | {x.arg for x in a.kwonlyargs} | {x.arg for x in (a.vararg, a.kwarg) if x}
+                 | assigned_names(node.body))
+        self.paths = used_paths(node)
         body = [self.stmt(s, mod, local, glob) for s in node.body]
-        self.prog[q] = {"name": q, "params": params, "body": body, "globals": [[k, v] for k, v in glob.items()]}
+        self.prog[q] = {"name": q, "params": params, "body": body, "globals": [[k, v] for k, v in glob.items()],
+                        "nposonly": len(a.posonlyargs), "otherparams": other}
         return q
 
     # -- expressions
@@ -111,6 +120,74 @@ class Encoder:
             return ["int", rs(obj)]
         return ["other"]
 
+    def fn_gval(self, obj):
+        """a callable object -> ["fn", TARGET] (a user function is encoded too)"""
+        key = self.known_by_id.get(id(obj))
+        if key is None and isinstance(obj, types.FunctionType) and self.has_source(obj):
+            self.features.add("call_user" if obj.__module__ in self.gen_modules else "call_library")
+            saved = self.paths
+            q = self.add_fn(obj)
+            self.paths = saved
+            return ["fn", ["user", q]]
+        self.features.add("call_known" if key else "call_foreign")
+        return ["fn", ["known", key or f"?{getattr(obj, '__name__', 'callable')}"]]
+
+    def obj_gval(self, obj):
+        if callable(obj):
+            return self.fn_gval(obj)
+        return self.gval(obj)
+
+    def import_items(self, s):
+        """function-local import statement -> [[name, ITEM]]; ITEM = ["flt", q] | ["int", q] | ["objs", [[path, GVAL]]] | ["other"]"""
+        items = []
+
+        def module_item(name, module):
+            ps = [[name, ["other"]]]
+            for path in sorted(self.paths):
+                parts = path.split(".")
+                if parts[0] != name or len(parts) < 2:
+                    continue
+                obj = module
+                for a in parts[1:]:
+                    obj = getattr(obj, a, _MISSING)
+                    if obj is _MISSING:
+                        break
+                if obj is not _MISSING:
+                    ps.append([path, self.obj_gval(obj)])
+            return [name, ["objs", ps]]
+
+        for al in s.names:
+            try:
+                if isinstance(s, ast.Import):
+                    if al.asname is None and "." in al.name:
+                        return None  # `import a.b` binds `a`: not encoded
+                    items.append(module_item(al.asname or al.name, importlib.import_module(al.name)))
+                    continue
+                if s.level or s.module is None:
+                    return None
+                module = importlib.import_module(s.module)
+                el = getattr(module, al.name, _MISSING)
+            except Exception:  # noqa: BLE001
+                return None
+            name = al.asname or al.name
+            if el is _MISSING or al.name == "*":
+                return None
+            if isinstance(el, bool):
+                items.append([name, ["other"]])
+            elif isinstance(el, float):
+                items.append([name, ["flt", rs(Fraction(el))] if math.isfinite(el) else ["other"]])
+            elif isinstance(el, int):
+                items.append([name, ["int", rs(el)]])
+                self.features.add("local_import_int")
+            elif callable(el):
+                items.append([name, ["objs", [[name, self.fn_gval(el)]]]])
+            elif isinstance(el, types.ModuleType):
+                items.append(module_item(name, el))
+            else:
+                items.append([name, ["other"]])
+                self.features.add("local_import_other")
+        return items
+
     def resolve_path(self, node, mod):
         """ast.Name / ast.Attribute chain -> (dotted text, object or None)"""
         parts = []
@@ -126,6 +203,8 @@ class Encoder:
         for p in parts[1:]:
             if obj is _MISSING:
                 break
+            if isinstance(obj, type):
+                self.features.add("class_attr")
             obj = getattr(obj, p, _MISSING)
         return ".".join(parts), (None if obj is _MISSING else obj)
 
@@ -138,10 +217,13 @@ class Encoder:
                 return ["unsupported"]
             return ["num", rs(Fraction(v))]
         if isinstance(n, ast.Name):
+            # the module-level object of that name is recorded even when the name is local: the translator falls back
+            # to it whenever its symbol table has no entry (Python's own semantics in the model looks at locals first)
+            obj = vars(mod).get(n.id, _MISSING)
+            if obj is not _MISSING and n.id not in glob:
+                glob[n.id] = self.gval(obj)
             if n.id not in local:
-                obj = vars(mod).get(n.id, _MISSING)
                 if obj is not _MISSING:
-                    glob[n.id] = self.gval(obj)
                     self.features.add("global_" + glob[n.id][0])
                 else:
                     self.features.add("undefined_name")
@@ -195,18 +277,12 @@ class Encoder:
             if obj is None or not callable(obj):
                 self.features.add("call_unresolved")
                 return [tag, path, args]
-            key = self.known_by_id.get(id(obj))
-            if key is None and isinstance(obj, types.FunctionType) and self.has_source(obj):
-                self.features.add("call_user" if obj.__module__ in self.gen_modules else "call_library")
-                q = self.add_fn(obj)
+            if isinstance(obj, types.FunctionType) and self.known_by_id.get(id(obj)) is None and self.has_source(obj):
                 if len(args) < obj.__code__.co_argcount and not n.keywords:
                     self.features.add("call_fewer_args")
                 if obj.__defaults__ or obj.__kwdefaults__ or obj.__code__.co_kwonlyargcount:
                     self.features.add("callee_defaults")
-                glob[path] = ["fn", ["user", q]]
-                return [tag, path, args]
-            self.features.add("call_known" if key else "call_foreign")
-            glob[path] = ["fn", ["known", key or f"?{getattr(obj, '__name__', 'callable')}"]]
+            glob[path] = self.fn_gval(obj)
             return [tag, path, args]
         self.features.add("unsupported_expr")
         return ["unsupported"]
@@ -218,10 +294,17 @@ class Encoder:
             if len(s.targets) == 1 and isinstance(s.targets[0], ast.Name):
                 return ["assign", s.targets[0].id, E(s.value)]
             t = s.targets[0]
+            if len(s.targets) > 1 and all(isinstance(x, ast.Name) for x in s.targets):
+                self.features.add("chained_assign")
+                return ["multi", [x.id for x in s.targets], E(s.value)]
             if (len(s.targets) == 1 and isinstance(t, ast.Tuple) and isinstance(s.value, ast.Tuple)
                     and all(isinstance(e, ast.Name) for e in t.elts)):
                 self.features.add("tuple_assign")
                 return ["tuple", [e.id for e in t.elts], [E(v) for v in s.value.elts]]
+            if (len(s.targets) == 1 and isinstance(t, ast.Tuple) and not isinstance(s.value, ast.Tuple)
+                    and all(isinstance(e, ast.Name) for e in t.elts)):
+                self.features.add("iter_unpack")
+                return ["unpack", [e.id for e in t.elts], E(s.value)]
             self.features.add("opaque_stmt")
             return ["opaque"]
         if isinstance(s, ast.AugAssign) and isinstance(s.target, ast.Name):
@@ -242,11 +325,15 @@ class Encoder:
         if isinstance(s, ast.Pass) or (isinstance(s, ast.Expr) and isinstance(s.value, ast.Constant)):
             return ["skip"]
         if isinstance(s, (ast.Import, ast.ImportFrom)):
-            # function-local imports (ctx.modules / ctx.fns) are not modelled: oracle-only stratum
+            # function-local imports: `ctx.modules` / `ctx.fns` / `ctx.symbols` of the model (PyStmt.importS)
             self.features.add("local_import")
             if any(a.asname for a in s.names):
                 self.features.add("local_import_alias")
-            return ["skip"]  # so that the side-condition flags are still computed for the rest of the body
+            items = self.import_items(s)
+            if items is None:
+                self.features.add("local_import_unencoded")
+                return ["skip"]
+            return ["import", items]
         self.features.add("opaque_stmt")
         return ["opaque"]
 
@@ -260,6 +347,24 @@ def assigned_names(body) -> set[str]:
         for n in ast.walk(s):
             if isinstance(n, ast.Name) and isinstance(n.ctx, ast.Store):
                 out.add(n.id)
+            elif isinstance(n, (ast.Import, ast.ImportFrom)):
+                out |= {(a.asname or a.name).split(".")[0] for a in n.names}
+    return out
+
+
+def used_paths(fn_node) -> set[str]:
+    """source text of every dotted attribute chain rooted at a name that occurs in the function"""
+    out: set[str] = set()
+    for n in ast.walk(fn_node):
+        if isinstance(n, ast.Attribute):
+            parts = []
+            m = n
+            while isinstance(m, ast.Attribute):
+                parts.append(m.attr)
+                m = m.value
+            if isinstance(m, ast.Name):
+                parts.append(m.id)
+                out.add(".".join(reversed(parts)))
     return out
 
 
@@ -628,6 +733,14 @@ def hone(a, r=0.25):
 
 def hcomb(a, b):
     return hmul(a, b) - hsub(a, b) + HC
+
+
+class PC:
+    """class attribute and instance attribute differ (F-C06-16: the translator instantiates the class)"""
+    a = 1.0
+
+    def __init__(self):
+        self.a = 2.0
 '''
 
 # a second module with the same names bound to other functions / values (function-local imports pick from here)
@@ -650,6 +763,12 @@ def hclip(x, lo):
 
 def hmix(p, q):
     return p + q * 4
+
+
+K1 = 5
+NI = 7
+TAB = (1.0, 2.0)
+FLAG = True
 '''
 
 LOCAL_IMPORTS = ["from c06g import hmul", "from c06g import hclip", "from c06g import HD", "from c06g import hsub, hmul",
@@ -755,7 +874,7 @@ class Gen:
     def header(self) -> str:
         return (
             "import math\nimport numpy as np\n"
-            f"import {self.helper_mod} as hp\nfrom {self.helper_mod} import hmul, hclip, HD\n"
+            f"import {self.helper_mod} as hp\nfrom {self.helper_mod} import hmul, hclip, HD, PC\n"
             "from mxlpy import fns\nfrom mxlpy.fns import mass_action_1s\n\n"
             "K1 = 2.0\nK2 = 0.5\nK3 = -4.0\nNI = 3\n\n"
         )
@@ -1108,6 +1227,108 @@ def t_fns(s, vmax, km):
 def t_fns_perm(s1, k, vmax):
     r = fns.michaelis_menten_1s(k, s1, vmax)
     return fns.minus(r, fns.mass_action_1s_1p(vmax, k, s1, 2))
+
+
+def t_chain(x):
+    y = x
+    z = y = 2 * x
+    return y
+
+
+def t_chain3(x, y):
+    t = u = x = y * 2
+    return t + u - x + y
+
+
+def t_unpack_divmod(x, y):
+    x, y = divmod(x, y)
+    return x
+
+
+def t_unpack_call(x, y):
+    x, y = hp.hsub(x, y)
+    return x
+
+
+def t_unpack_name(x, y):
+    t = x
+    x, y = t
+    return y
+
+
+def t_star_target(a, b):
+    *a, b = b, a
+    return b
+
+
+def t_import_int(x):
+    from c06g import K1
+    return x * K1
+
+
+def t_import_int2(x):
+    from c06g import NI as K2
+    return x * K2 + K1
+
+
+def t_import_other(x):
+    from c06g import TAB as K3
+    return x * K3
+
+
+def t_import_flag(x):
+    from c06g import FLAG as K3
+    return x + K3
+
+
+def t_posonly(K1, /, x):
+    return K1 * x
+
+
+def t_posonly2(x, K3, /):
+    return K1 * x - K3
+
+
+def t_kwonly(x, *, K2=3.0):
+    return x * K2
+
+
+def t_varargs(x, *K3):
+    return x * 2
+
+
+def t_kwargs(x, **K3):
+    return x * 2
+
+
+def t_call_posonly(x, y):
+    return t_posonly(y, x) + t_posonly2(x, y)
+
+
+def t_call_kwonly(x):
+    return t_kwonly(x) + 1
+
+
+def t_class_attr(x):
+    return x * PC.a
+
+
+def t_ret_not_last(s, vmax, km):
+    if s > km:
+        v = vmax
+        sat = s / 4
+    else:
+        v = vmax * s / 4
+        sat = 1.0
+    return v
+
+
+def t_ret_not_last2(s, k):
+    v = k * s
+    if v > 10.0:
+        v = 10.0
+        over = k * s - 10.0
+    return v
 '''
 
 
@@ -1159,6 +1380,63 @@ def exhaustive_bodies() -> list[str]:
         if not lines:
             continue
         out.append("\n".join("    " + l for l in lines))
+    return out
+
+
+def multi_assign_bodies() -> list[str]:
+    """branches that consist of several plain assignments and fall through to `return <name>`: the returned name is the
+    last one a branch assigns, an earlier one, or one it does not assign (seed-independent stratum)"""
+    import itertools
+
+    branch = ["t = 2 * x\nu = x + 1", "u = x + 1\nt = 2 * x", "t = 2 * x", "t = u = 3 * x", "return x - 1"]
+    conds = ["x > 0", "x < -1"]
+    shapes: list[list[tuple[str, str]]] = []
+    for b1 in branch:
+        shapes.append([("if " + conds[0], b1)])
+    for b1, b2 in itertools.product(branch, repeat=2):
+        shapes.append([("if " + conds[0], b1), ("else", b2)])
+        shapes.append([("if " + conds[0], b1), ("elif " + conds[1], b2)])
+    for b1, b2, b3 in itertools.product(branch[:3] + branch[4:], repeat=3):
+        shapes.append([("if " + conds[0], b1), ("elif " + conds[1], b2), ("else", b3)])
+    out = []
+    for shape, post in itertools.product(shapes, ["return t", "return u"]):
+        lines = ["t = y", "u = y - 2"]
+        for head, body in shape:
+            lines.append(head + ":")
+            lines += ["    " + l for l in body.split("\n")]
+        lines.append(post)
+        out.append("\n".join("    " + l for l in lines))
+    return out
+
+
+def branch_import_sources() -> list[str]:
+    """function-local imports inside the branches of an if, re-binding a name that an earlier import (or the module)
+    binds differently; Python binds per path, so must the translation (seed-independent stratum)"""
+    outs = [("from c06h import hmul", "from c06g import hmul", "hmul(x, y)"),
+            ("from c06h import hmul, HD", "from c06g import hmul, HD", "hmul(x, y) + HD"),
+            ("import c06h as m", "import c06g as m", "m.hmul(x, y) + m.HC"),
+            ("import c06h as hp", "import c06g as hp", "hp.hsub(x, y) - hp.HD"),
+            ("from c06h import hsub as hmul", "from c06g import hmix as hmul", "hmul(x, y)"),
+            ("from c06h import HC as HD", "from c06g import NI as HD", "x * HD + y"),
+            ("import c06h", "from c06g import hmul as c06h", "hmul(x, y) + 1")]
+    shapes = [
+        "{o}\n    if x > 0:\n        {i}\n        return {u}\n    return {u}",
+        "{o}\n    if x > 0:\n        return {u}\n    else:\n        {i}\n        return {u}",
+        "{o}\n    if x > 0:\n        {i}\n        return {u}\n    elif x < -1:\n        return {u} + 1\n    return {u} * 2",
+        "{i}\n    if x > 0:\n        {o}\n        t = {u}\n        return t\n    elif y > 0:\n        {i}\n        return {u}\n    else:\n        return {u} - 1",
+        "{o}\n    if x > 0:\n        if y > 0:\n            {i}\n            return {u}\n        return {u} + 2\n    return {u}",
+        "if x > 0:\n        {i}\n        return {u}\n    {o}\n    return {u}",
+    ]
+    out = []
+    k = 0
+    for o, i, u in outs:
+        if u.startswith("hmul(x, y) + 1"):
+            # the last pair re-binds a module name to a function in the branch: only shapes where the use is a bare call
+            u = "hmul(x, y)"
+            o, i = "from c06h import hmul", "from c06g import hmix as hmul"
+        for sh in shapes:
+            out.append(f"def lb{k}(x, y):\n    " + sh.format(o=o, i=i, u=u) + "\n")
+            k += 1
     return out
 
 
